@@ -51,7 +51,7 @@ def t_cfg(ctx, kd, name="t_typed.cfg"):
     return cfg
 
 
-def judge(ctx, trace, kd, max_events=12000, cfg=None):
+def judge(ctx, trace, kd, max_events=15000, cfg=None):
     """Like lib.judge; T_TypedCache reports deviations as [first line, finding, count] (constant-size monitor state)."""
     cfg = cfg or t_cfg(ctx, kd)
     chunks = lib.split_trace(trace, trace + ".part", lib.is_new, max_events)
@@ -144,8 +144,11 @@ def run_programs(ctx, progs, trace, shards):
 
 
 # --------------------------------------------------------------------------- TLC stages
+WIDE = False        # set by run(): thorough tier
+
+
 def mc_constants(family, depth, kt=(), backs=()):
-    return {"Family": '"%s"' % family, "D": depth, "KT": tla_strs(kt), "Backs": tla_strs(backs)}
+    return {"Family": '"%s"' % family, "D": depth, "Wide": "TRUE" if WIDE else "FALSE", "KT": tla_strs(kt), "Backs": tla_strs(backs)}
 
 
 def add_states(ctx, r):
@@ -424,38 +427,34 @@ def random_programs(seed, quick):
 
 
 # --------------------------------------------------------------------------- self-tests
-def selftest(ctx, traces, kd):
-    """Binding self-test: corrupt one logged field / drop one event -> the monitor must flag exactly that."""
-    cfg = t_cfg(ctx, kd)
-
-    def head(path, n):
-        ls = lib.read_lines(path)[:n]
+def head(path, n):
+    ls = lib.read_lines(path)[:n]
+    if len(ls) == n:          # cut at a run boundary
         while ls and not lib.is_new(ls[-1]):
             ls.pop()
         ls.pop()
-        return ls
+    return ls
+
+
+def selftest(ctx, traces, kd):
+    """Binding self-test: corrupt one logged field / drop one event -> the monitor must flag exactly that.
+    One sample (heads of four families' traces), three monitor runs: as recorded, four fields corrupted, one event dropped."""
+    cfg = t_cfg(ctx, kd)
+    parts = [head(traces["blklim"], 2500), head(traces["met"], 2500), head(traces["pairs"], 2500), lib.read_lines(traces["inv"])]
+    ls = [l for p in parts for l in p]
+    off = [0, len(parts[0]), len(parts[0]) + len(parts[1]), len(parts[0]) + len(parts[1]) + len(parts[2]), len(ls)]
 
     def verdict(item):
-        name, ls = item
+        name, lines = item
         p = ctx.path(f"selftest_{name}.ndjson")
-        open(p, "w").write("\n".join(ls) + "\n")
+        open(p, "w").write("\n".join(lines) + "\n")
         return lib.tlc_trace(ctx, MODULE_T, cfg, p)
 
-    src = {"blk": head(traces["blklim"], 5000), "met": head(traces["met"], 5000), "key": head(traces["pairs"], 5000),
-           "inv": lib.read_lines(traces["inv"])}
-    with ThreadPoolExecutor(max_workers=min(lib.NCPU, 5)) as ex:
-        base = dict(zip(src, ex.map(verdict, [(k + "0", v) for k, v in src.items()])))
+    base = verdict(("base", ls))
 
-    def pick(kind, start, pred):
-        ls = src[kind]
-        return next(i for i, l in enumerate(ls) if i > start and (i + 1) not in base[kind]["violations"] and pred(i, l, ls))
-
-    def edited(kind, i, edit):
-        ls = list(src[kind])
-        e = json.loads(ls[i])
-        edit(e)
-        ls[i] = json.dumps(e, separators=(",", ":"))
-        return ls
+    def pick(part, start, pred):
+        return next(i for i in range(off[part] + start, off[part + 1] - 1)
+                    if (i + 1) not in base["violations"] and pred(i, ls[i]))
 
     def flip_eq(e):
         for t in e["res"]["eq"]:
@@ -464,27 +463,32 @@ def selftest(ctx, traces, kd):
                 break
 
     # (a) the bytes returned by a get_block hit are replaced by other bytes of the same length
-    ia = pick("blk", 40, lambda i, l, ls: '"op":"getb"' in l and '"hit":true' in l)
-    # (b) an event that is not a run boundary is dropped
-    ib = pick("blk", 60, lambda i, l, ls: not lib.is_new(l) and not lib.is_new(ls[i + 1]))
+    ia = pick(0, 40, lambda i, l: '"op":"getb"' in l and '"hit":true' in l)
     # (c) counters: one hit too many in a snapshot
-    ic = pick("met", 40, lambda i, l, ls: '"op":"mget"' in l and '"outcome"' not in l)
+    ic = pick(1, 40, lambda i, l: '"op":"mget"' in l and '"outcome"' not in l)
     # (d) keys: == reported TRUE for two objects with different fields
-    idd = pick("key", 40, lambda i, l, ls: '"op":"obs"' in l and ',false]' in l)
+    idd = pick(2, 40, lambda i, l: '"op":"obs"' in l and ',false]' in l)
     # (e) decision table: one answer negated
-    ie = pick("inv", 0, lambda i, l, ls: '"op":"sinv"' in l)
-    lb = list(src["blk"]); del lb[ib]
-    cases = [("blk_a", edited("blk", ia, lambda e: e["res"].__setitem__("h", "0" * 32))), ("blk_b", lb),
-             ("met_c", edited("met", ic, lambda e: e["snap"].__setitem__("hits", e["snap"]["hits"] + 1))),
-             ("key_d", edited("key", idd, flip_eq)),
-             ("inv_e", edited("inv", ie, lambda e: e["res"].__setitem__("b", not e["res"]["b"])))]
-    with ThreadPoolExecutor(max_workers=min(lib.NCPU, 5)) as ex:
-        va, vb, vc, vd, ve = list(ex.map(verdict, cases))
-    res = {"corrupt_returned_block_flagged": (ia + 1) in va["violations"] and va["nviol"] == base["blk"]["nviol"] + 1,
-           "drop_one_event_flagged": (ib + 1) in vb["violations"] and vb["nviol"] > base["blk"]["nviol"],
-           "corrupt_counter_flagged": (ic + 1) in vc["violations"] and vc["nviol"] == base["met"]["nviol"] + 1,
-           "corrupt_eq_flagged": (idd + 1) in vd["violations"] and vd["nviol"] == base["key"]["nviol"] + 1,
-           "corrupt_decision_flagged": (ie + 1) in ve["violations"] and ve["nviol"] == base["inv"]["nviol"] + 1}
+    ie = pick(3, 0, lambda i, l: '"op":"sinv"' in l)
+    # (b) an event that is not a run boundary is dropped
+    ib = pick(0, 60, lambda i, l: not lib.is_new(l) and not lib.is_new(ls[i + 1]))
+    edited = list(ls)
+    for i, edit in ((ia, lambda e: e["res"].__setitem__("h", "0" * 32)),
+                    (ic, lambda e: e["snap"].__setitem__("hits", e["snap"]["hits"] + 1)),
+                    (idd, flip_eq),
+                    (ie, lambda e: e["res"].__setitem__("b", not e["res"]["b"]))):
+        e = json.loads(edited[i])
+        edit(e)
+        edited[i] = json.dumps(e, separators=(",", ":"))
+    dropped = list(ls)
+    del dropped[ib]
+    with ThreadPoolExecutor(max_workers=2) as ex:
+        ve, vb = list(ex.map(verdict, [("edited", edited), ("dropped", dropped)]))
+    new = set(ve["violations"]) - set(base["violations"])
+    res = {"corrupt_returned_block_flagged": (ia + 1) in new, "corrupt_counter_flagged": (ic + 1) in new,
+           "corrupt_eq_flagged": (idd + 1) in new, "corrupt_decision_flagged": (ie + 1) in new,
+           "only_the_corrupted_events_flagged": ve["nviol"] == base["nviol"] + 4,
+           "drop_one_event_flagged": (ib + 1) in vb["violations"] and vb["nviol"] > base["nviol"]}
     ctx.cov["binding_selftest"] = res
     if not all(res.values()):
         raise lib.ToolError(f"binding self-test failed: {res}")
@@ -495,34 +499,27 @@ def selftest_signatures(ctx, traces, kd):
     if not kd:
         ctx.cov["binding_selftest"]["deviations_rejected_when_not_listed"] = "no finding is listed as known"
         return
-    tot_expl = tot_viol = 0
-    ok = True
     cfg_kd, cfg_no = t_cfg(ctx, kd), t_cfg(ctx, [], "t_typed_nodev.cfg")
-
-    def one(name):
-        ls = lib.read_lines(traces[name])[:6000]
-        while ls and not lib.is_new(ls[-1]):
-            ls.pop()
-        ls.pop()
+    samples = {"wrappers": [l for n in ("blklim", "arc", "res", "met") for l in head(traces[n], 2500)],
+               "keys": head(traces["keymut"], 3000)}
+    jobs = []
+    for name, ls in samples.items():
         p = ctx.path(f"selftest_sig_{name}.ndjson")
         open(p, "w").write("\n".join(ls) + "\n")
-        return name, lib.tlc_trace(ctx, MODULE_T, cfg_kd, p), lib.tlc_trace(ctx, MODULE_T, cfg_no, p)
-
-    with ThreadPoolExecutor(max_workers=min(lib.NCPU, 5)) as ex:
-        results = list(ex.map(one, ("blklim", "arc", "res", "keymut", "met")))
-    for name, with_kd, without in results:
-        # an event explained by two findings at once is one violation; in a key run an unexplained event also leaves the
-        # keys untainted, so later events of the run are rejected too (there: only "something is rejected")
-        newly = without["nviol"] - with_kd["nviol"]
-        explained = sum(d[2] for d in with_kd["deviations"])
-        tot_expl += explained
-        tot_viol += newly
-        ok = ok and with_kd["nviol"] == 0 and (newly > 0) == (explained > 0) and (name == "keymut" or newly <= explained)
-    ok = ok and tot_viol > 0
+        jobs += [(cfg_kd, p), (cfg_no, p)]
+    with ThreadPoolExecutor(max_workers=min(lib.NCPU, 4)) as ex:
+        w_kd, w_no, k_kd, k_no = list(ex.map(lambda j: lib.tlc_trace(ctx, MODULE_T, j[0], j[1]), jobs))
+    explained_w = sum(d[2] for d in w_kd["deviations"])
+    explained_k = sum(d[2] for d in k_kd["deviations"])
+    # an event explained by two findings at once is ONE violation without them; in a key run an unexplained event also
+    # leaves the keys untainted, so later events of the run are rejected too (there: only "something is rejected")
+    ok = (w_kd["nviol"] == 0 and k_kd["nviol"] == 0 and 0 < w_no["nviol"] <= explained_w and (k_no["nviol"] > 0) == (explained_k > 0)
+          and explained_k > 0)
     ctx.cov["binding_selftest"]["deviations_rejected_when_not_listed"] = ok
-    ctx.cov["binding_selftest"]["deviation_events_in_sample"] = tot_viol
+    ctx.cov["binding_selftest"]["deviation_events_in_sample"] = w_no["nviol"] + k_no["nviol"]
     if not ok:
-        raise lib.ToolError(f"signature self-test failed: explained={tot_expl}, violations without the listed deviations={tot_viol}")
+        raise lib.ToolError(f"signature self-test failed: wrappers explained={explained_w} rejected={w_no['nviol']} (listed: {w_kd['nviol']}); "
+                            f"keys explained={explained_k} rejected={k_no['nviol']} (listed: {k_kd['nviol']})")
 
 
 def replay(ctx, kd):
@@ -547,9 +544,11 @@ def run(ctx):
     if ctx.replay:
         return replay(ctx, kd)
     quick = ctx.quick
+    global WIDE
+    WIDE = not quick
     total = distinct = 0
     total += design_level(ctx, kd)
-    dq = {"met": 4, "blklim": 3, "blkcac": 3, "arc": 3, "res": 3, "keymut": 3}
+    dq = {"met": 3, "blklim": 3, "blkcac": 3, "arc": 3, "res": 3, "keymut": 3}
     dt = {"met": 5, "blklim": 4, "blkcac": 4, "arc": 4, "res": 4, "keymut": 4}
     depth = dq if quick else dt
     pair_backs = ["none", "mem", "disk"] if quick else ["none", "mem", "disk", "diskflat"]
